@@ -1,17 +1,49 @@
 import CnlDriver.CS
 import CnlModel.Exp2
-/-! `C20` driver table. -/
+import CnlSpec.Exp2
+/-! `C20` driver table: `cnl::exp2` (model + certified-floor oracle) and the `<numbers>` constants. -/
 namespace Cnl.Drv
 open Cnl
 
 def showExp2 (r : Res Int) : String := showRes (fun v => toString v) r
 
-def checkC20 (toks : List String) (_res : String) : Option Verdict :=
+/-- `x = rep · 2^E` is an integer -/
+def exp2Integral (E rep : Int) : Bool := if E < 0 then rep % 2^(-E).toNat == 0 else true
+
+/-- the property's demand on a result `v` given the true floor `want` -/
+def exp2Accept (E rep : Int) (want : Nat) (v : Int) : Bool :=
+  decide ((v - want).natAbs ≤ 1) && (!exp2Integral E rep || v == want)
+
+/-- known-defect classes (functions of format and input only) -/
+def exp2Class (f : Exp2.Fmt) (rep : Int) (want : Nat) : String :=
+  if !f.signed && f.bits ≥ 32 && f.exp < 0 then "C20.exp2_unsigned_rep_sign_compare"
+  else
+    -- what the code did with the coefficients of the header as first verified (derived inside Lean from the literals)
+    match Exp2.exp2With (Exp2.derivedCoeffs f.bits) f rep with
+    | .ok v => if exp2Accept f.exp rep want v then "" else "C20.exp2_error_exceeds_1lsb"
+    | _ => ""
+
+def checkC20 (toks : List String) (res : String) : Option Verdict :=
   match toks with
   | ["exp2", ty, e, r] => do
     let t ← parseIntTy ty; let e ← e.toInt?; let r ← r.toInt?
     let f : Exp2.Fmt := ⟨t.bits, t.signed, e⟩
-    some { model := showExp2 (Exp2.exp2 f r), branch := "exp2" }
+    let m := showExp2 (Exp2.exp2 f r)
+    let fmtS := ty ++ "/" ++ toString e
+    match Spec.Exp2.ref? e r with
+    | some want =>
+      if (want : Int) ≤ t.max then
+        let ok := match res.toInt? with
+          | some v => exp2Accept e r want v
+          | none => false
+        let dev := match res.toInt? with
+          | some v => let d := (v - want).natAbs; if d ≤ 4 then toString d else ">4"
+          | none => res
+        some { model := m, spec := some ok, cls := if ok then "" else exp2Class f r want,
+               branch := "exp2/" ++ fmtS ++ "/dev=" ++ dev ++ (if exp2Integral e r then "/integral" else ""),
+               nontrivial := true }
+      else some { model := m, spec := none, branch := "exp2/" ++ fmtS ++ "/unrepresentable", nontrivial := false }
+    | none => some { model := m, spec := none, branch := "exp2/" ++ fmtS ++ "/oracle-undecided", nontrivial := false }
   | _ => none
 
 end Cnl.Drv
